@@ -45,6 +45,9 @@ def run(ctx):
     P.mark_collateral(ctx, [TABLE], explained)
     base_broken = [a for a in rep["aborted"] if a["class"] == "Metric"]
     P.mark_collateral(ctx, [BASE], bool(base_broken))
+    P.base_report(ctx, rep, "state_dict_fresh", "state_dict", "$out", "state_dict", [BASE])
+    P.base_report(ctx, rep, "load_copies", "load_state_dict", "$f", "load", [BASE])
+    P.base_report(ctx, rep, "add_state_copies", "_add_state", "$f", "add_state", [BASE])
     P.dynamic_validation(ctx, "effects:dyn " + ("load_state_dict(state_dict()) into fresh == original" if MODE == "load" else "reset() == fresh")
                          + " (attributes + continuations, all classes)",
                          lambda n, c: D.probe_registry(n, c, MODE), flagged, "tie:dyn-registry")
